@@ -13,7 +13,7 @@ var OpNames = []string{"AND", "OR", "EQUALS", "LIKE", "NOT", "RANGE", "MUST", "M
 var badOpNames = []string{"", "and", "Equals", "UNDEFINED", "XOR", "MUSTNOT", " AND", "0", "null"}
 
 var jsonLeaves = []string{
-	`"a"`, `"b c"`, `""`, `"*"`, `"a*"`, `"?"`, `"/x/"`, `"/"`, `"//"`, `"/a*b/"`, `"/a\\\\/"`, `"/a\\/"`, `5`, `-3`, `0`, `1.5`, `1e5`, `1e400`, `-0`, `1.0`, `5.0`, `null`, `true`, `false`,
+	`"a"`, `"b c"`, `""`, `"*"`, `"a*"`, `"?"`, `"/x/"`, `"/"`, `"//"`, `"/a*b/"`, `"/a\\\\/"`, `"/a\\/"`, `"b*\\"`, `"x?\\\\\\"`, `"\\"`, `"\ufffd"`, `5`, `-3`, `0`, `1.5`, `1e5`, `1e400`, `-0`, `1.0`, `5.0`, `null`, `true`, `false`,
 	`"NaN"`, `"min"`, `"\"min\":"`, `"\"left\":"`, `"it's"`, `"ü"`, `"\u0000"`, `"\ud800"`, `9223372036854775807`, `9223372036854775808`, `1e-320`, `"[1, 2]"`, `"x,y"`, `"'*'"`, `"(a"`, `"%"`, `"_"`,
 	`{"min":1,"max":2,"inclusive":true}`, `{"max":5,"extra":{"min":1}}`, `{"min":1,"x":{"max":2}}`, `{"min":1}`, `{"max":"z"}`, `{"min":null,"max":null}`, `{"max":5,"x":"\"min\":"}`, `{"min":"*","max":"*"}`,
 }
@@ -72,7 +72,7 @@ func (g *JSONGen) node(op string, depth int) string {
 		members["left"], members["right"] = field(), sub()
 	case "LIKE":
 		members["left"] = field()
-		members["right"] = []string{`"a*"`, `"*"`, `"?"`, `"/x/"`, `"//"`, `"b?c*"`, `"plain"`, `5`, `""`}[r.Intn(9)]
+		members["right"] = []string{`"a*"`, `"*"`, `"?"`, `"/x/"`, `"//"`, `"b?c*"`, `"plain"`, `5`, `""`, `"b*\\"`, `"?\\\\\\"`, `"a\\*b*"`, `"*\\"`}[r.Intn(13)]
 		if r.Intn(10) == 0 {
 			members["right"] = sub()
 		}
